@@ -1157,6 +1157,7 @@ def check(tier: str) -> int:
         "correspondence harness (Python): fake transports, canonicalisation, generators, monitors - differential testing, bounds but does not remove the model/code gap",
         "model pure/Buffered.v hand-written from streams/buffered.py:30-172 (HEAD incl. fixes F27-F29); the wrapped stream is data (chunk list): a byte stream hands out min(max_bytes,|chunk|) bytes of its next chunk, an object stream whole items (possibly empty); concurrency = feed_data() by another task during the waits of receive, receive_exactly and receive_until (one feed per fetch); cancellation of a call before it starts or at any fetch; a second concurrent reader and aclose() are not modelled",
         "tie T (Buffered): tools/translate_buffered.py (python ast -> coq/pure/BufGen.v; fail-closed tables in the script) regenerates receive / receive_exactly / receive_until on every run as programs of pure/BufImp.v; BufGenEq.v proves their interpretation equal to Buffered.step (state and result) for every state, argument, cancellation point and feed list. Trusted in it: the translator's tables, the reading of `await self.receive_stream.receive(..)` as BufImp.fetch (cancellation / data fed by other tasks during the wait / Buffered.pull), `self._closed` read as False, feed_data / buffer / the _buffer field checked literally. Not the only tie: the same model is co-simulated against the running code below",
+        "tie T (Text): tools/translate_text.py regenerates TextReceiveStream.receive / TextSendStream.send as programs of pure/TextImp.v (constructors, delegating methods and method sets checked literally); TextGenEq.v proves their interpretation equal to Text.tstep. Trusted: the translator's tables; codecs as modelled in Text.v",
         "model pure/Text.v hand-written from streams/text.py:33-108; CPython 3.12 codecs (strict) are a modelled environment: utf-8/latin-1 automata proved against the encoders in Coq, utf-16/utf-32 (+BOM handling, -le/-be) validated by this harness against `codecs` only; native byte order little endian",
     ]
     if sys.byteorder != "little":
@@ -1169,7 +1170,7 @@ def check(tier: str) -> int:
     def prove():
         # tie T: regenerate pure/BufGen.v from the source under test, then rebuild the cone of props/C16.v (under the
         # `tiegen` lock: a concurrent check against another tree cannot swap the generated file in between)
-        t_rc, t_out, ok = tiegen.translate_and_prove(rep, "props/C16.v", "translate_buffered.py")
+        t_rc, t_out, ok = tiegen.translate_and_prove(rep, "props/C16.v", ["translate_buffered.py", "translate_text.py"])
         proof_result.update(ok=ok, t_rc=t_rc, t_out=t_out)
     proof_thread = threading.Thread(target=prove)
     proof_thread.start()
@@ -1270,12 +1271,15 @@ def check(tier: str) -> int:
     proof_thread.join()
     proofs_ok = bool(proof_result.get("ok"))
     tie_T, tie_T_broken = tiegen.describe(rep, proof_result.get("t_rc", 2), proof_result.get("t_out", ""), proofs_ok,
-                                          ("pure/BufGen.v", "pure/BufGenEq.v"),
+                                          ("pure/BufGen.v", "pure/BufGenEq.v", "pure/TextGen.v", "pure/TextGenEq.v"),
                                           {"exactly_loop_eq": "gen_exactly (loop body)", "until_loop_eq": "gen_until (loop body)",
                                            "loop_nc_eq": "gen_receive (skip-empty-items loop)", "tie_receive": "gen_receive",
-                                           "tie_exactly": "gen_exactly", "tie_until": "gen_until"})
-    tie_T["translator"] = "tools/translate_buffered.py (python ast -> coq/pure/BufGen.v, fail closed)"
-    tie_T["equality_theorems"] = "BufGenEq.v: tie_receive, tie_exactly, tie_until, gstep_eq_step, grun_eq_run (props C16_tie_*)"
+                                           "tie_exactly": "gen_exactly", "tie_until": "gen_until",
+                                           "recv_loop_eq": "gen_text_receive (loop body)", "tie_text_receive": "gen_text_receive",
+                                           "tie_text_send": "gen_text_send"})
+    tie_T["translator"] = "tools/translate_buffered.py (python ast -> coq/pure/BufGen.v), tools/translate_text.py (-> coq/pure/TextGen.v), fail closed"
+    tie_T["equality_theorems"] = ("BufGenEq.v: tie_receive, tie_exactly, tie_until, gstep_eq_step, grun_eq_run; "
+                                  "TextGenEq.v: tie_text_receive, tie_text_send (props C16_tie_*)")
     rep.coverage["tie_T"] = tie_T
 
     # kernel-checked sample (after the build has finished: it reads the .vo files)
